@@ -150,6 +150,11 @@ class CHECK(Check):
                 for p in range(0, len(seq) + 1):
                     for sepk in ('sp', 'nl'):
                         out.append(('illegal', seq, ch, (p, sepk)))
+            # other line-break conventions between the tokens (CR LF, a bare CR, tab + line feed)
+            for ch in ('#', '^'):
+                for p in range(0, len(seq) + 1):
+                    for sepk in ('crlf', 'cr', 'tabnl'):
+                        out.append(('illegal', seq, ch, (p, sepk)))
         return out
 
     def build(self, case):
@@ -161,7 +166,7 @@ class CHECK(Check):
             ch, (p, sepk) = lead, devs
             parts = [m.lexeme[t] for t in seq]
             parts.insert(p, ch)
-            return ('\n' if sepk == 'nl' else ' ').join(parts)
+            return {'nl': '\n', 'sp': ' ', 'crlf': '\r\n', 'cr': '\r', 'tabnl': '\t\n'}[sepk].join(parts)
         parts = [m.lexeme[t] for t in seq]
         seps = [' '] * (len(parts) - 1)
         for p, s in devs:
